@@ -36,7 +36,7 @@ var allKinds3 = []string{"csg", "csg", "csg", "field", "field", "lattice", "latt
 
 // genSrc3 draws a mesh description.  small: keep it to roughly <= 200 faces.
 func genSrc3(t *rapid.T, kinds []string, small bool, label string) src3 {
-	s := src3{Kind: rapid.SampledFrom(kinds).Draw(t, label+".kind")}
+	s := src3{Kind: pickOf(t, kinds, label+".kind")}
 	switch s.Kind {
 	case "csg":
 		s.Tree = gen.NodeGen(t, 3, 6, false, label+".tree")
@@ -45,7 +45,7 @@ func genSrc3(t *rapid.T, kinds []string, small bool, label string) src3 {
 		} else {
 			s.Delta = gen.LogF(t, 0.2, 0.5, label+".delta")
 		}
-		s.Iters = rapid.IntRange(0, 8).Draw(t, label+".iters")
+		s.Iters = gen.Int(t, 0, 8, label+".iters")
 	case "field":
 		mx := 5
 		if small {
@@ -53,11 +53,11 @@ func genSrc3(t *rapid.T, kinds []string, small bool, label string) src3 {
 		}
 		f := gen.Field3Gen(t, mx, label+".field")
 		s.Field = &f
-		s.Delta = f.Scale / float64(rapid.IntRange(1, 2).Draw(t, label+".res"))
+		s.Delta = f.Scale / float64(gen.Int(t, 1, 2, label+".res"))
 		if small {
 			s.Delta = f.Scale
 		}
-		s.Iters = rapid.IntRange(0, 8).Draw(t, label+".iters")
+		s.Iters = gen.Int(t, 0, 8, label+".iters")
 	case "lattice":
 		mx := 5
 		if small {
@@ -66,14 +66,14 @@ func genSrc3(t *rapid.T, kinds []string, small bool, label string) src3 {
 		l := gen.Lattice3Gen(t, mx, label+".lattice")
 		s.Lat = &l
 		s.Delta = 1
-		s.Iters = rapid.SampledFrom([]int{0, 0, 0, 1, 3, 6}).Draw(t, label+".iters")
+		s.Iters = pickOf(t, []int{0, 0, 0, 1, 3, 6}, label+".iters")
 	case "icosphere":
 		s.P = []float64{gen.F(t, -1, 1, label+".cx"), gen.F(t, -1, 1, label+".cy"), gen.F(t, -1, 1, label+".cz"), gen.LogF(t, 0.1, 10, label+".r")}
 		mx := 5
 		if small {
 			mx = 3
 		}
-		s.N = []int{rapid.IntRange(1, mx).Draw(t, label+".n")}
+		s.N = []int{gen.Int(t, 1, mx, label+".n")}
 	case "icosahedron":
 	case "rect":
 		s.P = []float64{gen.F(t, -1, 1, label+".x"), gen.F(t, -1, 1, label+".y"), gen.F(t, -1, 1, label+".z"),
@@ -85,11 +85,11 @@ func genSrc3(t *rapid.T, kinds []string, small bool, label string) src3 {
 		if small {
 			mx = 4
 		}
-		s.N = []int{rapid.IntRange(2, mx).Draw(t, label+".n")}
+		s.N = []int{gen.Int(t, 2, mx, label+".n")}
 	case "cylinder", "cone":
 		sh := gen.Shape3Gen(t, []string{s.Kind}, 1, 20, label+".shape")
 		s.Shape = &sh
-		s.N = []int{rapid.IntRange(3, 40).Draw(t, label+".stops")}
+		s.N = []int{gen.Int(t, 3, 40, label+".stops")}
 	case "torus":
 		sh := gen.Shape3Gen(t, []string{"torus"}, 1, 20, label+".shape")
 		s.Shape = &sh
@@ -97,29 +97,29 @@ func genSrc3(t *rapid.T, kinds []string, small bool, label string) src3 {
 		if small {
 			mx = 10
 		}
-		s.N = []int{rapid.IntRange(3, mx).Draw(t, label+".inner"), rapid.IntRange(3, mx).Draw(t, label+".outer")}
+		s.N = []int{gen.Int(t, 3, mx, label+".inner"), gen.Int(t, 3, mx, label+".outer")}
 	case "polar":
 		s.P = []float64{gen.F(t, 0.5, 3, label+".base"), gen.F(t, 0, 0.4, label+".amp1"), gen.F(t, 0, 0.4, label+".amp2"), gen.F(t, 0, 6.3, label+".phase")}
 		mx := 16
 		if small {
 			mx = 9
 		}
-		s.N = []int{rapid.IntRange(3, mx).Draw(t, label+".stops"), rapid.IntRange(1, 5).Draw(t, label+".k1"), rapid.IntRange(1, 7).Draw(t, label+".k2")}
+		s.N = []int{gen.Int(t, 3, mx, label+".stops"), gen.Int(t, 1, 5, label+".k1"), gen.Int(t, 1, 7, label+".k2")}
 	}
 	return s
 }
 
 // withVariants adds the optional subdivision / copy / jitter decorations.
 func withVariants(t *rapid.T, s src3, sub, dup, jitter bool, label string) src3 {
-	if sub && rapid.IntRange(0, 3).Draw(t, label+".dosub") == 0 {
-		s.Sub = rapid.IntRange(2, 3).Draw(t, label+".sub")
+	if sub && gen.Int(t, 0, 3, label+".dosub") == 0 {
+		s.Sub = gen.Int(t, 2, 3, label+".sub")
 	}
-	if dup && rapid.IntRange(0, 4).Draw(t, label+".dup") == 0 {
+	if dup && gen.Int(t, 0, 4, label+".dup") == 0 {
 		s.Dup = true
 	}
-	if jitter && rapid.IntRange(0, 2).Draw(t, label+".dojitter") == 0 {
+	if jitter && gen.Int(t, 0, 2, label+".dojitter") == 0 {
 		s.Jitter = gen.LogF(t, 0.01, 0.5, label+".jitter")
-		s.JSeed = rapid.IntRange(0, 1<<20).Draw(t, label+".jseed")
+		s.JSeed = gen.Int(t, 0, 1<<20, label+".jseed")
 	}
 	return s
 }
@@ -237,13 +237,13 @@ type poly2 struct {
 var allKinds2 = []string{"csg", "csg", "field", "lattice", "lattice", "polar", "polygon", "polygon", "rect"}
 
 func genPoly2(t *rapid.T, label string) poly2 {
-	n := rapid.IntRange(3, 9).Draw(t, label+".n")
+	n := gen.Int(t, 3, 9, label+".n")
 	p := poly2{C: gen.Vec2(t, 1, label+".c"), Scale: gen.LogF(t, 0.1, 10, label+".scale")}
-	maxExtra := rapid.IntRange(0, 4).Draw(t, label+".maxextra")
+	maxExtra := gen.Int(t, 0, 4, label+".maxextra")
 	for i := 0; i < n; i++ {
 		p.Ang = append(p.Ang, gen.F(t, 0, 0.8, label+".ang"))
 		p.Rad = append(p.Rad, gen.F(t, 0.4, 1.6, label+".rad"))
-		k := rapid.IntRange(0, maxExtra).Draw(t, label+".nextra")
+		k := gen.Int(t, 0, maxExtra, label+".nextra")
 		var ex []float64
 		for j := 0; j < k; j++ {
 			// strictly increasing parameters by construction: j-th point inside the j-th of k slots
@@ -279,27 +279,27 @@ func (p poly2) points() []kit.V2 {
 }
 
 func genSrc2(t *rapid.T, kinds []string, label string) src2 {
-	s := src2{Kind: rapid.SampledFrom(kinds).Draw(t, label+".kind")}
+	s := src2{Kind: pickOf(t, kinds, label+".kind")}
 	switch s.Kind {
 	case "csg":
 		s.Tree = gen.Node2Gen(t, 3, 6, label+".tree")
 		s.Delta = gen.LogF(t, 0.05, 0.4, label+".delta")
-		s.Iters = rapid.IntRange(0, 8).Draw(t, label+".iters")
+		s.Iters = gen.Int(t, 0, 8, label+".iters")
 	case "field":
 		f := gen.Field2Gen(t, 7, label+".field")
 		s.Field = &f
-		s.Delta = f.Scale / float64(rapid.IntRange(1, 3).Draw(t, label+".res"))
-		s.Iters = rapid.IntRange(0, 8).Draw(t, label+".iters")
+		s.Delta = f.Scale / float64(gen.Int(t, 1, 3, label+".res"))
+		s.Iters = gen.Int(t, 0, 8, label+".iters")
 	case "lattice":
 		l := gen.Lattice2Gen(t, 8, label+".lattice")
 		s.Lat = &l
 		s.Delta = 1
-		s.Iters = rapid.SampledFrom([]int{0, 0, 0, 1, 3, 6}).Draw(t, label+".iters")
+		s.Iters = pickOf(t, []int{0, 0, 0, 1, 3, 6}, label+".iters")
 	case "polar":
 		s.P = []float64{gen.F(t, 0.5, 3, label+".base"), gen.F(t, 0, 0.4, label+".amp1"), gen.F(t, 0, 0.4, label+".amp2"), gen.F(t, 0, 6.3, label+".phase")}
-		s.N = []int{rapid.IntRange(3, 60).Draw(t, label+".stops"), rapid.IntRange(1, 5).Draw(t, label+".k1"), rapid.IntRange(1, 7).Draw(t, label+".k2")}
+		s.N = []int{gen.Int(t, 3, 60, label+".stops"), gen.Int(t, 1, 5, label+".k1"), gen.Int(t, 1, 7, label+".k2")}
 	case "polygon":
-		n := rapid.IntRange(1, 3).Draw(t, label+".npoly")
+		n := gen.Int(t, 1, 3, label+".npoly")
 		for i := 0; i < n; i++ {
 			p := genPoly2(t, label+".poly")
 			// disjoint by construction: the i-th polygon (radius <= 1.6*scale) is centred 4*scale_max apart
@@ -309,9 +309,9 @@ func genSrc2(t *rapid.T, kinds []string, label string) src2 {
 	case "rect":
 		s.P = []float64{gen.F(t, -1, 1, label+".x"), gen.F(t, -1, 1, label+".y"), gen.LogF(t, 0.05, 3, label+".dx"), gen.LogF(t, 0.05, 3, label+".dy")}
 	}
-	if rapid.IntRange(0, 3).Draw(t, label+".dojitter") == 0 {
+	if gen.Int(t, 0, 3, label+".dojitter") == 0 {
 		s.Jitter = gen.LogF(t, 0.01, 0.5, label+".jitter")
-		s.JSeed = rapid.IntRange(0, 1<<20).Draw(t, label+".jseed")
+		s.JSeed = gen.Int(t, 0, 1<<20, label+".jseed")
 	}
 	return s
 }
